@@ -9,7 +9,8 @@ import tempfile
 from .common import *   # noqa: F401,F403
 from . import instr_gen as ig
 
-RULE = ("a base chart (Song, SyncTrack, Events (sometimes empty) and a random subset of the 40 '<Difficulty><Instrument>' sections; every header is used as a singleton in thorough) is rendered in variants: "
+LEAF = ['Leaf_chart', 'Leaf_fromfile', 'Leaf_dispatch', 'Leaf_tracks']      # translated functions this property's model relies on (Tie/<name>.v)
+RULE = ("a base chart (Song, SyncTrack, Events (sometimes empty) and a random subset (sometimes with one part copied line for line into another section) of the 40 '<Difficulty><Instrument>' sections; every header is used as a singleton in thorough) is rendered in variants: "
         "random permutations of the sections, LF or CRLF line endings, with or without a UTF-8 byte-order mark (written to a real temporary file and read by Chart.from_filepath) or through "
         "Chart.from_file(StringIO); by-path files carry non-ASCII text (2-, 3- and 4-byte sequences) and a stream of them is damaged into invalid UTF-8 (0xFF byte, overlong form, surrogate, stray continuation, truncated sequence: ValueError on both sides); unknown sections inserted anywhere (names that merely start with a valid header such as ExpertSingleBackup, names with blanks, bodies containing header-like "
         "lines at column 0, other sections' lines, indented braces), each required section removed in turn; judged against the implementation's parse of the canonical rendering: equal metadata / "
@@ -137,6 +138,10 @@ def base_chart(rng, headers):
         groups = ig.gen_groups(rng, R, rng.choice([0, 1, 3]) or 1)
         lines = ["  " + l for l in ig.section_lines(rng, groups, R, junk=False)]
         secs.append((h, lines if rng.random() < 0.9 else []))
+    if len(headers) >= 2 and rng.random() < 0.35:
+        # a part copied line for line into another section (another instrument or difficulty): still a track of its own
+        a, b = rng.sample(range(3, len(secs)), 2)
+        secs[b] = (secs[b][0], list(secs[a][1]))
     return secs
 
 
